@@ -17,4 +17,5 @@ MIN_OBLIGATIONS = 20
 def build(src, tier):
     w = TT.world_for(src, tier)
     # cancellation can only reach sources that are tracked: what __post_event owes (tags C11) is checked here too
-    return [(w, [TT.t_cancel_events(), TT.t_cancel_event(), TT.t_timed_post('fifo'), TT.t_timed_post('lifo')])]
+    return [(w, [TT.t_cancel_events(), TT.t_cancel_event(), TT.t_timed_post('fifo'), TT.t_timed_post('lifo'),
+                 TT.t_timed_post('fifo', may_cancel=True), TT.t_timed_post('lifo', may_cancel=True)])]
